@@ -35,6 +35,8 @@ type monitor struct {
 
 	// identifiers the automaton was observed to use for packets it originated (send callback)
 	reqIDs     []byte    // identifiers of all its Configure-Requests, oldest first
+	reqData    [][]byte  // their option bytes, same order
+	contentPending bool  // after its latest Configure-Request it told the peer (in a Configure-Nak) a value of its own that differs from that request's: its next request will differ in content
 	hasNC      bool      // it originated a packet that is not a Configure-Request (Terminate-Request, Code-Reject, Protocol-Reject, Echo-Request)
 	ncID       byte      // identifier of the latest such packet
 	ncCode     byte      // its code
@@ -80,6 +82,8 @@ func (m *monitor) hasID(class string) bool {
 		return m.hasOur
 	case "old":
 		return len(m.olderReqIDs()) > 0
+	case "sup":
+		return m.hasOur && m.supData() != nil
 	case "nc":
 		return m.hasNC && !(m.hasOur && m.ncID == m.ourID)
 	case "peer":
@@ -100,7 +104,7 @@ func (m *monitor) idFor(class string, r *rand.Rand) (byte, bool) {
 		return 0, false
 	}
 	switch class {
-	case "cur", "alt":
+	case "cur", "alt", "sup":
 		return m.ourID, m.hasOur
 	case "old":
 		ids := m.olderReqIDs()
@@ -150,6 +154,8 @@ func (m *monitor) onSent(p pkt, stBefore string) {
 	case cConfReq:
 		m.hasOur, m.ourID, m.ourData = true, p.ID, p.Data
 		m.reqIDs = append(m.reqIDs, p.ID)
+		m.reqData = append(m.reqData, append([]byte(nil), p.Data...))
+		m.contentPending = false
 		m.ncAfterReq = false
 		m.termAfterReq = false
 		m.peerAcked = false
@@ -158,7 +164,48 @@ func (m *monitor) onSent(p pkt, stBefore string) {
 		if m.hasPeer && p.ID == m.peerID {
 			m.weAcked = true
 		}
+	case cConfNak:
+		// a Nak that suggests a new magic number because the peer's equals the automaton's own (looped-back link):
+		// the automaton has changed the value it will put in its next Configure-Request
+		if m.hasOur && bytes.Contains(p.Data, []byte{5, 6}) && m.hasPeer && bytes.Contains(m.peerData, []byte{5, 6}) {
+			if mine := optVal(m.ourData, 5); mine != nil && bytes.Equal(optVal(m.peerData, 5), mine) && !bytes.Equal(optVal(p.Data, 5), mine) {
+				m.contentPending = true
+			}
+		}
 	}
+}
+
+// optVal returns the value of the first option of type t in an option list (nil if absent or malformed).
+func optVal(data []byte, t byte) []byte {
+	for i := 0; i+2 <= len(data); {
+		l := int(data[i+1])
+		if l < 2 || i+l > len(data) {
+			return nil
+		}
+		if data[i] == t {
+			return data[i+2 : i+l]
+		}
+		i += l
+	}
+	return nil
+}
+
+// supData: the option bytes of an earlier Configure-Request that carried the SAME identifier as the latest one but
+// different content, with no request under another identifier in between (so this is not identifier wrap-around).
+// A Configure-Ack echoing those bytes is the peer's genuine, late acknowledgement of the superseded request - it is
+// not an acknowledgement of the most recent one. An automaton that gives every new request content a fresh
+// identifier (RFC 1661 section 5.1: the Identifier MUST be changed whenever the content of the Options field
+// changes) never produces this situation.
+func (m *monitor) supData() []byte {
+	for i := len(m.reqIDs) - 2; i >= 0; i-- {
+		if m.reqIDs[i] != m.ourID {
+			return nil
+		}
+		if !bytes.Equal(m.reqData[i], m.ourData) {
+			return m.reqData[i]
+		}
+	}
+	return nil
 }
 
 func (m *monitor) onDeliver(code, id byte, data []byte) {
@@ -168,6 +215,11 @@ func (m *monitor) onDeliver(code, id byte, data []byte) {
 		m.weAcked = false
 	case cConfAck:
 		if m.hasOur && id == m.ourID {
+			if sd := m.supData(); sd != nil && bytes.Equal(data, sd) {
+				// the genuine acknowledgement of a superseded request that shared the identifier: not an
+				// acknowledgement of the most recent Configure-Request
+				break
+			}
 			m.peerAcked = true
 		}
 	case cTermReq:
@@ -959,5 +1011,5 @@ func (c *caseCtx) fingerprint() string {
 			nc = 2
 		}
 	}
-	return fmt.Sprintf("%s|%v%v%v%v%v|%d|%v%v|%s|%v%d", c.m.St(), m.hasOur, m.peerAcked, m.hasPeer, m.weAcked, m.ourByTimer, rc, c.m.TimerSet(), pend, ip, m.hasID("old"), nc)
+	return fmt.Sprintf("%s|%v%v%v%v%v|%d|%v%v|%s|%v%d|%v%v", c.m.St(), m.hasOur, m.peerAcked, m.hasPeer, m.weAcked, m.ourByTimer, rc, c.m.TimerSet(), pend, ip, m.hasID("old"), nc, m.contentPending, m.hasID("sup"))
 }
